@@ -111,6 +111,13 @@ func c11BitText(s string, from, k int) string {
 func c11All(w *mon.W, s string) {
 	var ev int64
 	w.Obj = fmt.Sprintf("%q", s)
+	if gen.HashStr(s)&1 == 0 {
+		// the string as the last bytes of a mapping (the last key of a mapped file): nothing may be read beyond it
+		if v, rel, ok := roTailStr(w, s); ok {
+			s = v
+			defer rel()
+		}
+	}
 	for from := 0; from <= 8*len(s)+9; from++ {
 		for wd := 0; wd <= 32; wd++ {
 			w.Op, w.A, w.B = "FromStr32", int64(from), int64(wd)
